@@ -100,6 +100,17 @@ func (c *cClient) step(in *sut.Instance, mods map[string]bool) {
 	if mods["confirm"] {
 		acts = append(acts, "badconfirm")
 	}
+	// the rejection branches and the plain pages of every loaded flow
+	acts = append(acts, "getlogin")
+	if mods["recover"] {
+		acts = append(acts, "badrecoverend", "recoverunknown", "getrecover", "shortrecoverend")
+	}
+	if mods["register"] {
+		acts = append(acts, "badregister", "getregister")
+	}
+	if mods["otp"] {
+		acts = append(acts, "getotp", "otpclear")
+	}
 	switch acts[c.rng.Intn(len(acts))] {
 	case "login":
 		c.do(in, "POST", "/auth/login", map[string]string{"email": c.pid, "password": c.pw})
@@ -142,6 +153,25 @@ func (c *cClient) step(in *sut.Instance, mods map[string]bool) {
 		c.do(in, "POST", "/auth/register", map[string]string{"email": c.pid, "password": c.pw, "confirm_password": c.pw})
 	case "badconfirm":
 		c.do(in, "GET", "/auth/confirm?cnf=bm9wZQ", nil)
+	case "getlogin":
+		c.do(in, "GET", "/auth/login", nil)
+	case "getrecover":
+		c.do(in, "GET", "/auth/recover", nil)
+	case "getregister":
+		c.do(in, "GET", "/auth/register", nil)
+	case "getotp":
+		c.do(in, "GET", "/auth/otp/login", nil)
+	case "otpclear":
+		c.do(in, "POST", "/auth/otp/clear", nil)
+		c.otps = nil
+	case "badrecoverend":
+		c.do(in, "POST", "/auth/recover/end", map[string]string{"token": "bm90IGEgdG9rZW4gYXQgYWxsIGJ1dCBsb25nIGVub3VnaCB0byBiZSBvbmUsIHJlYWxseSwgNjQgYnl0ZXMhIQ==", "password": c.pw + "y", "confirm_password": c.pw + "y"})
+	case "shortrecoverend":
+		c.do(in, "POST", "/auth/recover/end", map[string]string{"token": "x", "password": "a", "confirm_password": "b"})
+	case "recoverunknown":
+		c.do(in, "POST", "/auth/recover", map[string]string{"email": "nobody-" + c.pid})
+	case "badregister":
+		c.do(in, "POST", "/auth/register", map[string]string{"email": "new-" + c.pid, "password": "a", "confirm_password": "b"})
 	}
 }
 
